@@ -29,7 +29,9 @@ theorem ErrIn.insertLeaf {P : SErr → Prop} (hk : P .keyExists) (parent : Optio
     · rename_i hlen; exact ErrIn.throw (hr hlen)
     · split
       · exact ErrIn.unmodelledS _
-      · repeat ei_step
+      · split
+        · exact ErrIn.unmodelledS _
+        · repeat ei_step
 
 theorem ErrIn.insertInternal {P : SErr → Prop} (hk : P .keyExists)
     (fuel : Nat) (parent : Option Nat) (cur : Internal) (key lsn : Nat) (value : Bytes)
